@@ -112,21 +112,19 @@ def e2(chk, op):
     mod = repo.module("ceos_alos2.sar_image.io")
     pc = mod.func("parse_chunk")
     where = f"{mod.relpath}:parse_chunk"
-    flow = Flow(pc)
-    size_guard = False
-    type_guard = False
-    for n in pc.own_nodes():
-        if not isinstance(n, ast.Raise):
-            continue
-        for test, pol in guards_of(n, pc.node):
-            deps = flow.deps(test)
-            txt = norm(flow.expand(test))
-            if {"content", "element_size"} <= deps and "len(content)" in txt:
-                size_guard = True
-            if "record_types" in deps or "record_types" in txt:
-                type_guard = True
+    # decided by evaluation of parse_chunk on model blocks (wherever the guards live: in the function, in a helper, as a
+    # comparison or a divmod): a block that is not a whole number of records and an unknown record type must raise
+    from .common_rules import parse_chunk_run
+    L_ = 24
+    outcomes = {}
+    for label, code, nbytes in (("cut inside a record", 10, 2 * L_ + 5), ("cut inside a record (processed)", 11, 3 * L_ - 1), ("one byte short of one record", 10, L_ - 1), ("unknown record type", 99, 2 * L_)):
+        res, _ = parse_chunk_run(repo, code, nbytes, L_)
+        outcomes[label] = res
+    size_guard = all(outcomes[k][0] == "raise" for k in outcomes if k != "unknown record type")
+    type_guard = outcomes["unknown record type"][0] == "raise"
+    accepted = [k for k, v in outcomes.items() if v[0] != "raise"]
     chk.require(size_guard, "C18-E2", where, "raises when len(content) is not a multiple of the record size",
-                "parse_chunk no longer rejects a chunk that is not a whole number of records: a file cut inside a record is parsed from shifted bytes", key="parse_chunk:size-guard")
+                f"parse_chunk no longer rejects a chunk that is not a whole number of records ({accepted[:2]}): a file cut inside a record is parsed from shifted bytes", key="parse_chunk:size-guard")
     chk.require(type_guard, "C18-E2", where, "raises on an unknown record type", "parse_chunk no longer rejects unknown record types", key="parse_chunk:type-guard")
     # the size guard only works if parse_chunk is handed exactly the bytes the read returned
     rm = mod.func("read_metadata")
@@ -351,6 +349,18 @@ def e4(chk, op):
                         any(isinstance(x, ast.Call) and isinstance(x.func, ast.Attribute) and x.func.attr in ("append", "add") and any(isinstance(v, ast.Name) and v.id == h.name for a in x.args for v in ast.walk(a)) for st in h.body for x in ast.walk(st))
                     later_raise = any(isinstance(x, ast.Raise) and x.lineno > node.end_lineno for x in fi.own_nodes())
                     collected = stored and later_raise
+                # (b') the caught error leaves the function as a value (yielded / returned / handed to a call): whether it surfaces is
+                # decided where it can be - for the summary reader by evaluating it on corrupted texts (same corpus as C14-S9)
+                if not only_cache and not collected and h.name:
+                    escapes = any(isinstance(x, (ast.Yield, ast.Return)) and x.value is not None and any(isinstance(v, ast.Name) and v.id in _names_holding(h, fi) for v in ast.walk(x.value))
+                                  for x in fi.own_nodes())
+                    if escapes and fi.module.name == "ceos_alos2.summary":
+                        from .c14 import summary_eval
+                        before = len(chk.violations) if hasattr(chk, "violations") else None
+                        summary_eval(chk, repo, fi.module, rule="C18-E4")
+                        continue
+                    if escapes:
+                        raise AnalysisError(f"{where}: `except {', '.join(map(str, cname))}` hands the error on as a value; whether it is raised later is not decided")
                 # (c) import-compat shim: except NameError/ImportError around a bare name
                 ok = only_cache or collected
                 why = "covers only the cache lookup (falls back to the parse, which fails on its own)" if only_cache else "errors are collected and raised after the loop" if collected else ""
@@ -359,6 +369,19 @@ def e4(chk, op):
                             key=f"{fi.key}:except:{'/'.join(map(str, cname))}", sample={"handler": cname, "why": why})
     if n < 2:
         raise AnalysisError(f"only {n} non-re-raising handlers found on the open path (expected open_image and parse_summary)")
+
+
+def _names_holding(h, fi):
+    """names that hold the exception caught by handler ``h``: its own name and the names it is assigned to (also by tuple assignment) inside the handler"""
+    out = {h.name}
+    for st in h.body:
+        for x in ast.walk(st):
+            if isinstance(x, ast.Assign) and any(isinstance(v, ast.Name) and v.id == h.name for v in ast.walk(x.value)):
+                for t in x.targets:
+                    for y in ast.walk(t):
+                        if isinstance(y, ast.Name):
+                            out.add(y.id)
+    return out
 
 
 def e6(chk, op):
